@@ -146,6 +146,12 @@ EXPLORE.update({
            "four listed known findings (string-based Constant equality, quoted atoms, \\+ vs not under unification). The planned "
            "proof for Term-vs-Term was not built.",
 })
+EXPLORE.update({
+    "C21": "Run-time contract on dtproblog(search=exhaustive|local) and on the map task for seeded decision-theoretic "
+           "programs against brute-force expected utility from possible-world enumeration: reported score = expected "
+           "utility of the returned strategy; exhaustive: no strategy is better; local: no single flip improves; map: arg "
+           "max of the documented objective over the query facts. Four defects found this way were repaired (fix: commits).",
+})
 FUNCTION_LEVEL = ("C11", "C13", "C14", "C18")
 FN_BOUNDED_TECH = ("run-time contract (pre/post-condition against an independent reference) on the real functions over a "
                    "bounded input family; the deductive contracts planned for these functions were not built, so nothing "
